@@ -368,6 +368,9 @@ class TS:
         self.budget = budget
         self.base_interest = {Q_SET_STATE, Q_SET_ERR, Q_EMIT_TASK, Q_EMIT_EVENT, Q_UPSERT, Q_PUSH, Q_SCHED, Q_IS_READY, Q_CTX_SET_TASK}
         self.events_of_interest = self.sm.reaches(self.base_interest)
+        # helpers that only *read* the tracked task's state (a guard moved into `fn ensure_open(&self) -> Result<()>`
+        # or `fn is_closed(&self) -> bool`) are inlined as well: their verdict decides the caller's branch
+        self.state_readers = self.sm.reaches({Q_STATE, Q_ERR})
         self.stats = {"configs": 0, "runs": 0, "inlined": set(), "havocs": set()}
         self.profile = None
         self.branch_adts = ()       # ADT name suffixes whose undecided `match` emits BRANCH events
@@ -557,6 +560,10 @@ class TS:
                     cenv = dict(fr.saved)
                     if "rv" in env:
                         cenv[fr.callblk] = ("B", env["rv"])
+                    elif fn.locals[0] == "bool":
+                        bv = self._bool_of(fn, self.pa.root_place(fn, 0, []), env)
+                        if bv is not None:
+                            cenv[fr.callblk] = ("B", bv)
                     if kind in ("OK", "ERR_NEW", "ERR_PROP") and fn.returns_result():
                         cenv[fr.callblk] = ("RES", "Ok" if kind == "OK" else "Err")
                     elif fn.returns_result() and fn.q not in self.sm.may_fail():
@@ -884,7 +891,7 @@ class TS:
             if tp or (cp and cok):
                 for tq in targets:
                     cf = self.m.fns[tq]
-                    if tq not in self.events_of_interest:
+                    if tq not in self.events_of_interest and not (tp and tq in self.state_readers and self._small_reader(tq)):
                         continue
                     if sum(1 for f in frames if f.fn.q == tq) >= (2 if len(frames) > 4 and any(f.fn.q == self.on_task.q for f in frames) else 1):
                         continue  # recursion: handled by havoc below
@@ -896,7 +903,7 @@ class TS:
                         life = kr[2] if (kr[0] == "agg" and kr[1].endswith("TaskLifeCycle")) else None
                     fr2 = Frame(cf, tp, cp, retblk=nxt, callblk=b, saved=tuple(sorted(env2.items(), key=repr)), life=life)
                     push(0, s=s2, cok=cok2, mon=mon2, env={}, frames=frames + (fr2,), ev=ev)
-                if inlined and len([tq for tq in targets if tq in self.events_of_interest]) == len(targets):
+                if inlined and len([tq for tq in targets if tq in self.events_of_interest or (tp and tq in self.state_readers and self._small_reader(tq))]) == len(targets):
                     return
                 if inlined:
                     # some targets are uninteresting (no events): they just return
@@ -969,6 +976,30 @@ class TS:
                 push(nxt, s=S, cok=cok2, mon=mon3, env=env2, ev=hev if S != s2 else ev)
             return
         push(nxt, s=s2, cok=cok2, mon=mon2, env=env2, ev=ev)
+
+    def _small_reader(self, q):
+        """a pure reader of the task state worth inlining: a Result- or bool-returning local function (the shape of an
+        extracted guard); other readers (accessors building messages, ..) do not decide a branch of their caller"""
+        f = self.m.fns.get(q)
+        if f is None:
+            return False
+        ty = f.locals[0]
+        return ty == "bool" or f.returns_result()
+
+    def _bool_of(self, fn, r, env, depth=0):
+        """truth value of a provenance root under the facts of `env`, or None"""
+        if depth > 6:
+            return None
+        if r[0] == "not":
+            v = self._bool_of(fn, r[1], env, depth + 1)
+            return None if v is None else (not v)
+        if r[0] == "call" and not r[3]:
+            v = env.get(r[2])
+            if v is not None and v[0] == "B":
+                return v[1]
+        if r[0] == "const" and r[1].get("ty") == "bool" and "int" in r[1]:
+            return bool(int(r[1]["int"]))
+        return None
 
     def _sched_kind(self, fn, args):
         """what is scheduled: a `child` node (element of node.children()/children_in()) or the `next` node"""
